@@ -324,6 +324,9 @@ def manifest_suite(ctx, env):
             'clearkey-cenc,playready', 'marlin-cenc,clearkey,playready-pro']
     manifests = ['hand_made.mpd', 'manifest_e.mpd'] if ctx.quick() else \
         ['hand_made.mpd', 'manifest_a.mpd', 'manifest_b.mpd', 'manifest_e.mpd', 'manifest_h.mpd', 'manifest_i.mpd', 'manifest_n.mpd']
+    # a template that does not list drmSelection among its features drops the option (clear representations, no ContentProtection)
+    from dashlive.server import manifests as _mf
+    manifests = [m for m in manifests if 'drmSelection' in _mf.manifest_map[m].features]
     tracks = {'video': ('bbb_v7_enc', 'm4v'), 'audio': ('bbb_a1_enc', 'm4a')}
     kid_of = {}
     with env.app.app_context():
